@@ -365,6 +365,8 @@ var valueAtoms = []string{".", "1", "null", "false", "true", `"a"`, `"a\u0000b"`
 	// strings that are NOT valid UTF-8 (the library keeps the bytes; raw output writes them as they are)
 	// and characters that other JSON encoders escape although jq does not (U+2028, U+2029, DEL, </>)
 	`("iVBORw0KGgo=" | @base64d)`, `("/w==" | @base64d)`, `("w6k=" | @base64d | .[0:1] + "x")`, `[("/v8=" | @base64d)]`, `{("/w==" | @base64d): 1}`, `"\u2028"`, `"a\u2029b"`, `{"\u2028": ["\u2029"]}`, `["</script>", "\u007f", "\ud83d\ude00"]`,
+	// strings longer than the encoder's 8 KiB buffer with escapes inside, at the top level, nested and as a key
+	`("a" * 5000 + "\n" + "b" * 5000)`, `[("x\"y" * 3000)]`, `{("k" * 8200 + "\tq"): ("v" * 8190 + "\\" + "w")}`, `("é" * 4100 + "\u0000" + "z")`,
 	`"tab\there"`, `"\u001f\u007f"`, "(1, 2)", "[range(3)]", `"<&>'"`, "tojson", "not", "null, false", "false, 1", `"NUL\u0000", 2`}
 var failAtoms = []string{`error("x")`, "error", "error(null)", "error({a: 1})", ".a.b.c", "(1 / .)", ".[0]", "tonumber", `error("multi\nline")`, `error("é")`,
 	`error("")`, `halt_error("x")`, "implode", "error([1, null])", `error("a\u0000b")`, ".[\"k\"]", "ltrimstr(1) | error"}
@@ -452,6 +454,13 @@ func runLog(args []string, stdin string, seekable bool) ([]cli.VerifChunk, int) 
 	}
 	ch := make(chan res, 1)
 	go func() {
+		defer func() {
+			if rec := recover(); rec != nil {
+				gctx.Violate(keyOf("command-panic", fmt.Sprint(args, "<", stdin)), fmt.Sprintf("gojq %v panics: %v", args, rec),
+					map[string]any{"args": args, "stdin": stdin, "observed": fmt.Sprint("panic: ", rec), "expected": "outputs or a diagnostic", "cmd": fmt.Sprintf("printf %%s%s | gojq%s", shq([]string{stdin}), shq(args))})
+				ch <- res{[]cli.VerifChunk{{Stream: 2, Data: []byte(fmt.Sprint("panic: ", rec))}}, 2}
+			}
+		}()
 		c, code := cli.VerifRunLog(args, []byte(stdin), seekable)
 		ch <- res{c, code}
 	}()
